@@ -550,6 +550,7 @@ package beacon
 //@ func NewSyncManager(ctx, c) (m, err)
 //@   props C02 C10
 //@   modifies nothing
+//@   ensures [C02:sync-writes-go-through-the-checked-stack-not-the-bare-database] err == nil ==> m != nil && m.store == c.Store
 //@   ensures [C10:sync-manager-writes-to-the-store-it-is-given] err == nil ==> m != nil && m.store == c.Store && m.insecureStore == c.BoltdbStore && m.info == c.Info && m.client == c.Client && m.clock == c.Clock && m.nodeAddr == c.NodeAddr
 
 //@ func newChainStore(ctx, l, cf, cl, v, store, t) (cs, err)
